@@ -198,11 +198,9 @@ impl SDJWTVerifier {
         if key_binding_jwt.claims.get("nonce") != Some(&Value::String(expected_nonce)) {
             return Err(Error::InvalidInput("Invalid nonce".to_string()));
         }
-        if self.sd_jwt_engine.serialization_format == SDJWTSerializationFormat::Compact {
-            let sd_hash = self._get_key_binding_digest_hash()?;
-            if key_binding_jwt.claims.get(KB_DIGEST_KEY) != Some(&Value::String(sd_hash)) {
-                return Err(Error::InvalidInput("Invalid digest in KB-JWT".to_string()));
-            }
+        let sd_hash = self._get_key_binding_digest_hash()?;
+        if key_binding_jwt.claims.get(KB_DIGEST_KEY) != Some(&Value::String(sd_hash)) {
+            return Err(Error::InvalidInput("Invalid digest in KB-JWT".to_string()));
         }
 
         Ok(())
